@@ -86,6 +86,8 @@ type Sim struct {
 	seq      int
 	lastKey  string
 	closing  atomic.Bool
+	done     chan struct{} // closed by Shutdown
+	onShut   []func()
 	ctrl     uint64
 	start    time.Time
 	schedH   [32]byte
@@ -146,6 +148,7 @@ func New(t *Tape) *Sim {
 	s := &Sim{
 		T:          t,
 		arrive:     make(chan struct{}, 1),
+		done:       make(chan struct{}),
 		tasks:      map[uint64]*Task{},
 		stats:      map[string]int{},
 		idNames:    map[string]string{},
@@ -472,6 +475,84 @@ func MarkDying() {
 	}
 }
 
+// Done returns a channel that is closed when the run is over (nil outside a
+// simulation). The rewritten blocking channel operations of instrumented code
+// wait on it as well, so that goroutines which no event of the run would ever
+// wake up again (their simulated process crashed) end with the run instead of
+// staying, with everything they reference, for the life of the worker
+// process. It never fires before the verdict of the run has been collected.
+func Done() <-chan struct{} {
+	if s := Cur(); s != nil {
+		return s.done
+	}
+	return nil
+}
+
+// OnShutdown registers f to be called when the run is over: simulated
+// resources wake up the goroutines that wait inside them (they then leave
+// through ExitShutdown).
+func OnShutdown(f func()) {
+	if s := Cur(); s != nil {
+		s.mu.Lock()
+		s.onShut = append(s.onShut, f)
+		s.mu.Unlock()
+	}
+}
+
+// Closing reports whether the run is over.
+func Closing() bool {
+	s := Cur()
+	return s != nil && s.closing.Load()
+}
+
+// Sleep is time.Sleep for harness code: it ends the goroutine when the run is
+// over (the clock of a bubble stops when its root function returns, so a
+// plain sleeper would stay for ever).
+func Sleep(d time.Duration) {
+	t := time.NewTimer(d)
+	select {
+	case <-t.C:
+	case <-Done():
+		t.Stop()
+		ExitShutdown()
+	}
+}
+
+// ExitShutdown ends the calling goroutine (the run is over).
+func ExitShutdown() {
+	MarkDying()
+	runtime.Goexit()
+}
+
+// SendOrExit is `ch <- v`.
+func SendOrExit[T any](ch chan<- T, v T) {
+	select {
+	case ch <- v:
+	case <-Done():
+		ExitShutdown()
+	}
+}
+
+// RecvOrExit is `<-ch`.
+func RecvOrExit[T any](ch <-chan T) (v T) {
+	select {
+	case v = <-ch:
+	case <-Done():
+		ExitShutdown()
+	}
+	return v
+}
+
+// RecvOrExit2 is `v, ok := <-ch`.
+func RecvOrExit2[T any](ch <-chan T) (v T, ok bool) {
+	select {
+	case v, ok = <-ch:
+	case <-Done():
+		ExitShutdown()
+	}
+	return v, ok
+}
+
 // Unlock releases a mutex unless the calling goroutine is being unwound by the
 // simulator (killed while it waited in Lock: its deferred Unlock runs without
 // the mutex being held).
@@ -592,6 +673,16 @@ func (s *Sim) KillWhere(f func(site, res string) bool) {
 // Shutdown ends the run: every parked goroutine exits, later points exit too.
 func (s *Sim) Shutdown() {
 	s.closing.Store(true)
+	// goroutines blocked in a channel operation of instrumented code (e.g. of
+	// an incarnation that "crashed" and is never closed) leave through this
+	close(s.done)
+	s.mu.Lock()
+	hooks := s.onShut
+	s.onShut = nil
+	s.mu.Unlock()
+	for _, f := range hooks {
+		f()
+	}
 	for i := 0; i < 50; i++ {
 		synctest.Wait()
 		s.mu.Lock()
